@@ -1,27 +1,26 @@
 (* C03 — decode . encode . decode is stable: whatever decodes successfully can be encoded again (no error, no panic)
    and decodes to the same value.
    Model / tie: as for C01 and C02 (Model.Codec, Gen.UaTypes, codecharness correspondence incl. the re-encoded bytes);
-   rwf / rwf0 / rnorm / grid / desc_ok: Model.CodecWfAll.
+   rwf / rnorm / grid / noempty / desc_ok: Model.CodecWfAll.
    PROVED:
-   (a) REFUTED twice: a DateTime outside the int64-nanosecond range (C03_refuted_datetime, known finding
-       datetime-out-of-range) and an extension object of a registered EMPTY struct type with a non-empty body
+   (a) the full statement is REFUTED twice: a DateTime outside the int64-nanosecond range (C03_refuted_datetime, known
+       finding datetime-out-of-range) and an extension object of a registered EMPTY struct type with a non-empty body
        (C03_refuted_empty_extobj, known finding extobj-empty-struct: Value = &T{} re-encodes with body length 0, which
        decodes to Value = nil);
-   (b) C03_decoded_wf (full quantifier: any registry and descriptor satisfying desc_ok, any nesting budget, any input of
-       at most MaxInt32 bytes): every successfully decoded value satisfies rwf0 (= rwf without the condition that
-       extension object bodies re-encode to 1 .. 2^32-2 bytes) and, if all its DateTimes are on the 100 ns grid
-       (grid: ReadTime did not wrap), is its own normal form;
-   (c) C03_partial_reencode: such a value that moreover satisfies rwf (i.e. additionally: its extension object bodies
-       re-encode to 1 .. 2^32-2 bytes) encodes again and the encoding followed by ANY bytes decodes to the same value
-       and leaves those bytes: all eight hand-written codecs, all descriptors, non-canonical masks, unknown ids;
-   (d) the two repaired defects (rows 4, 5) on the model.
-   NOT PROVED: that the hypothesis rwf of (c) can only fail in the empty-struct class of (a) (it would follow from
-   "the re-encoding is never longer than the bytes consumed", which is validated by the check on every decoded
-   value but not proved). *)
+   (b) C03_partial_stable: for ANY registry satisfying reg_desc_ok / reg_min_ok and ANY descriptor satisfying desc_ok
+       (C03_registry: the generated ones do), any nesting budget, any input of at most MaxInt32 bytes (longer strings
+       cannot be re-encoded): a successfully decoded value v whose DateTimes are on the 100 ns grid (grid v: ReadTime did
+       not wrap) and which carries no empty-struct extension object body (noempty v) -- i.e. outside exactly the two
+       refuted classes -- encodes again without error or panic, the re-encoding is not longer than the bytes the decoder
+       consumed, and the re-encoding followed by ANY bytes decodes to v and leaves those bytes.  Through all eight
+       hand-written codecs, all descriptors, non-canonical masks, unknown extension object ids, multi-dimensional arrays.
+       Ingredients: C03_decoded_wf (decoded values are rwf0 and, on the grid, their own normal form), C03_decoded_rwf
+       (without empty bodies they satisfy the full rwf; re-encoding not longer than the input), C01's roundtrip_all;
+   (c) the two repaired defects (rows 4, 5) on the model. *)
 From Coq Require Import NArith ZArith List Bool Lia.
 From Coq.Strings Require Import Byte.
 From Opcua Require Import Model.CodecTypes Model.Codec Model.CodecEq Model.CodecWf Model.CodecWfAll Proofs.CodecBase Proofs.CodecRT
-  Proofs.CodecRoundtripAll Proofs.CodecDecWf Proofs.CodecTotal Gen.UaTypes.
+  Proofs.CodecRoundtripAll Proofs.CodecDecWf Proofs.CodecDecLen Proofs.CodecTotal Gen.UaTypes.
 Import ListNotations.
 Open Scope Z_scope.
 
@@ -82,8 +81,8 @@ Definition all_tys : list ty :=
   all_structs ++ map TPtr all_structs ++ map snd variant_types ++ [xml_body_ty].
 
 (* side conditions of (b), (c) at what the code registers today *)
-Theorem C03_registry : reg_desc_ok gen_reg = true /\ forallb desc_ok all_tys = true.
-Proof. vm_compute. split; reflexivity. Qed.
+Theorem C03_registry : reg_desc_ok gen_reg = true /\ reg_min_ok gen_reg = true /\ forallb desc_ok all_tys = true.
+Proof. vm_compute. repeat split; reflexivity. Qed.
 
 (* FULL (on inputs up to MaxInt32 bytes): what the decoder returns is well-formed (rwf0) and, on the 100 ns grid, normal *)
 Theorem C03_decoded_wf : forall reg fuel t bs v rest al,
@@ -94,30 +93,42 @@ Proof.
   intros reg fuel t bs v rest al Hreg Ht Hs E. exact (proj1 (decode_wf reg Hreg fuel t Ht bs v rest al Hs E)).
 Qed.
 
-(* PARTIAL: re-encoding and second decode, whatever follows the re-encoding *)
-Theorem C03_partial_reencode : forall reg fuel t bs v rest al,
-  reg_desc_ok reg = true -> desc_ok t = true -> blen bs <= max_int32 ->
+(* without empty-struct bodies the decoded value satisfies the full rwf, and its encoding is not longer than what was read *)
+Theorem C03_decoded_rwf : forall reg fuel t bs v rest al,
+  reg_desc_ok reg = true -> reg_min_ok reg = true -> desc_ok t = true -> blen bs <= max_int32 ->
   decode reg fuel t bs = Ok v rest al ->
-  grid v = true -> rwf reg t v = true ->
-  exists bs', encode reg t v = EOk bs' /\
+  (noempty v = true -> rwf reg t v = true) /\
+  (forall bs', encode reg t v = EOk bs' -> (length bs' <= length bs - length rest)%nat).
+Proof.
+  intros reg fuel t bs v rest al Hreg Hmin Ht Hs E.
+  destruct (decode_len reg Hreg Hmin fuel t Ht bs v rest al Hs E) as [_ [He Hr]]. split; [exact Hr|].
+  intros bs' E'. rewrite E' in He. exact He.
+Qed.
+
+(* PARTIAL (hypotheses = complement of the two refuted classes, input at most MaxInt32 bytes) *)
+Theorem C03_partial_stable : forall reg fuel t bs v rest al,
+  reg_desc_ok reg = true -> reg_min_ok reg = true -> desc_ok t = true -> blen bs <= max_int32 ->
+  decode reg fuel t bs = Ok v rest al ->
+  grid v = true -> noempty v = true ->
+  exists bs', encode reg t v = EOk bs' /\ (length bs' <= length bs - length rest)%nat /\
     forall fuel' rest', (length bs' < fuel')%nat -> exists al', decode reg fuel' t (bs' ++ rest') = Ok v rest' al'.
 Proof.
-  intros reg fuel t bs v rest al Hreg Ht Hs E Hg Hw.
+  intros reg fuel t bs v rest al Hreg Hmin Ht Hs E Hg Hne.
   destruct (C03_decoded_wf reg fuel t bs v rest al Hreg Ht Hs E) as [_ Hn]. specialize (Hn Hg).
-  destruct (roundtrip_all reg t v Hw 0%nat) as [bs' [E' _]]. exists bs'. split; [exact E'|].
+  destruct (C03_decoded_rwf reg fuel t bs v rest al Hreg Hmin Ht Hs E) as [Hw Hlen]. specialize (Hw Hne).
+  destruct (roundtrip_all reg t v Hw 0%nat) as [bs' [E' _]]. exists bs'. split; [exact E'|]. split; [apply Hlen; exact E'|].
   intros fuel' rest' Hf. destruct (roundtrip_all reg t v Hw fuel') as [bs2 [E2 [_ D]]].
   rewrite E' in E2. inversion E2; subst bs2. rewrite Hn in D. exact (D Hf rest').
 Qed.
 
-(* in the shape of the statement, at the generated registry *)
+(* in the shape of the statement, at the generated registry and descriptors *)
 Theorem C03_partial_generated : forall t bs v rest al, In t all_tys -> blen bs <= max_int32 ->
-  decode gen_reg (fuel_for bs) t bs = Ok v rest al -> grid v = true -> rwf gen_reg t v = true ->
+  decode gen_reg (fuel_for bs) t bs = Ok v rest al -> grid v = true -> noempty v = true ->
   exists bs' al', encode gen_reg t v = EOk bs' /\ decode gen_reg (fuel_for bs') t bs' = Ok v [] al'.
 Proof.
-  intros t bs v rest al Hin Hs E Hg Hw.
-  assert (Ht : desc_ok t = true).
-  { destruct C03_registry as [_ H]. rewrite forallb_forall in H. apply H. exact Hin. }
-  destruct (C03_partial_reencode gen_reg _ t bs v rest al (proj1 C03_registry) Ht Hs E Hg Hw) as [bs' [E' D]].
+  intros t bs v rest al Hin Hs E Hg Hne. destruct C03_registry as [Hreg [Hmin Hall]].
+  assert (Ht : desc_ok t = true) by (rewrite forallb_forall in Hall; apply Hall; exact Hin).
+  destruct (C03_partial_stable gen_reg _ t bs v rest al Hreg Hmin Ht Hs E Hg Hne) as [bs' [E' [_ D]]].
   destruct (D (fuel_for bs') [] ltac:(unfold fuel_for; lia)) as [al' D']. rewrite app_nil_r in D'.
   exists bs', al'. split; assumption.
 Qed.
@@ -126,7 +137,7 @@ Qed.
    non-canonical), an extension object of unknown type with a body, a DiagnosticInfo chain *)
 Example C03_nonvacuous :
   let chk := fun t bs => match decode gen_reg (fuel_for bs) t bs with
-                         | Ok v _ _ => grid v && rwf gen_reg t v && desc_ok t
+                         | Ok v _ _ => grid v && noempty v && desc_ok t
                          | _ => false end in
   chk (TCustom CVariant) [x46; x07; x00; x00; x00; x01; x02] = true /\
   chk (TCustom CExtObj) [x01; x00; x39; x30; x01; x03; x00; x00; x00; x09; x09; x09] = true /\
@@ -152,6 +163,7 @@ Print Assumptions C03_datetime_unstable.
 Print Assumptions C03_refuted_empty_extobj.
 Print Assumptions C03_registry.
 Print Assumptions C03_decoded_wf.
-Print Assumptions C03_partial_reencode.
+Print Assumptions C03_decoded_rwf.
+Print Assumptions C03_partial_stable.
 Print Assumptions C03_partial_generated.
 Print Assumptions C03_fixed_rows.
